@@ -12,6 +12,20 @@ ASSUMPTIONS = ["numpy's normal/uniform/choice variates have the documented distr
                "the 1/sqrt(N) rate is not a theorem; only unbiasedness and the exact conditional variance are"]
 
 
+def glue_equal(a, b):
+    """bit-identical, or within 16 ulp of the array's magnitude: the kernels are tied bit-exactly (C15); the few scalar operations of
+    the Python glue around them (sqrt(var/N) * sum, sqrt(S * prod(dk))) may be regrouped by a harmless rewrite"""
+    a, b = np.asarray(a, dtype=float), np.asarray(b, dtype=float)
+    if a.shape != b.shape:
+        return False
+    if np.array_equal(a, b, equal_nan=True):
+        return True
+    if not np.array_equal(np.isfinite(a), np.isfinite(b)):
+        return False
+    scale = float(np.max(np.abs(np.nan_to_num(b)))) if b.size else 0.0
+    return float(np.max(np.abs(np.nan_to_num(a - b)))) <= 16 * np.finfo(float).eps * (scale + 1e-300)
+
+
 def correspondence(ctx):
     import gstools as gs
     from gstools.field.generator import RandMeth, Fourier
@@ -101,11 +115,11 @@ def correspondence(ctx):
         distinct.add((kind, name, o.get("dim"), o.get("N")))
         if kind == "randmeth":
             lean = unbits(r)
-            if not np.array_equal(lean, real):
+            if not glue_equal(lean, real):
                 dis.append({"what": "RandMeth.__call__ differs from sqrt(var/N)*summate(...)", "model": name, "real": real.tolist(), "lean": lean.tolist()})
         elif kind == "fourier":
             sf, f = unbits(r[0]), unbits(r[1])
-            if not (np.array_equal(sf, real[0]) and np.array_equal(f, real[1])):
+            if not (glue_equal(sf, real[0]) and glue_equal(f, real[1])):
                 dis.append({"what": "Fourier spectrum factor / field differs from the model", "model": name,
                             "max_sf_diff": float(np.max(np.abs(sf - real[0]))), "max_field_diff": float(np.max(np.abs(f - real[1])))})
         elif kind == "sphere":
